@@ -1,5 +1,5 @@
 """Multi-agent inputs (C15, C16): STRIPS + numeric domains in which every action has exactly one
-agent-typed parameter (its first), over agents, items and locations with a shared counter."""
+agent-typed parameter (its first) or no parameter at all, over agents, items and locations with a shared counter."""
 import random
 
 from gen_core import S, L, N, typed
@@ -52,11 +52,16 @@ TEMPLATES = {
     "count": ([["?a", "agent"]],
               [L(S(">="), L(S("load"), S("?a")), N(0))],
               [L(S("increase"), L(S("total")), L(S("+"), L(S("load"), S("?a")), N(1, 2)))]),
+    # actions without parameters (no agent of their own): legal members of a joint action
+    "tick": ([], [], [L(S("increase"), L(S("total")), N(1))]),
+    "hush": ([], [A("alarm")], [NOT(A("alarm"))]),
 }
 
 
 def gen_domain(rng):
     names = ["move", "pick", "drop"] + rng.sample(["mark", "clean", "block", "rest", "inspect", "count", "disarm", "arm", "work", "signal"], rng.choice([3, 4, 5]))
+    if rng.random() < 0.5:
+        names.append(rng.choice(["tick", "hush"]))
     acts = []
     for n in names:
         params, pre, eff = TEMPLATES[n]
